@@ -251,6 +251,7 @@ pub fn cases(suite: &str, tier: &str, seed: u64, props: &BTreeSet<String>) -> Ve
             }
         }
         "qry" => out.extend(crate::qry::cases(tier, seed)),
+        "cfgmat" => out.extend(crate::cfgmat::cases(tier)),
         "tre" => out.extend(crate::tre::cases(tier)),
         "mig" => out.extend(crate::mig::cases(tier)),
         other => panic!("SYMX: unknown suite {other}"),
@@ -321,6 +322,7 @@ pub fn run_suite(suite: &str, props: &BTreeSet<String>, tier: &str, seed: u64, s
                 if !matches!(o.verdict, Verdict::Proved) {
                     failures.push(json!({
                         "case": c.name, "path": pi, "label": o.label, "formula": o.formula, "verdict": verdict_json(&o.verdict),
+                        "alts": o.alts.iter().map(|m| m.iter().map(|(k, v)| (k.clone(), Value::String(v.clone()))).collect::<serde_json::Map<String, Value>>()).collect::<Vec<_>>(),
                         "decisions": r.decisions, "notes": r.notes,
                     }));
                 }
